@@ -274,3 +274,32 @@ def _skeleton_fallback(orig):
 
 _MC.call_native = _M.call_native = _skeleton_fallback(_MC.call_native)
 _MC.instantiate = _M.instantiate = _skeleton_fallback(_MC.instantiate)
+
+
+# ---------------------------------------------------------------------------
+# inspect.signature(f).bind(*args, **kwargs): raises TypeError exactly when calling f with these arguments would fail to
+# bind (same rules as engine.Path.bind_args, which models the call itself); the BoundArguments result is not interpreted
+# ---------------------------------------------------------------------------
+import inspect as _inspect  # noqa: E402
+
+from .values import Bound, Builtin, Func  # noqa: E402
+
+
+class _Signature:
+    def __init__(self, func, recv):
+        def bind(ex, args, kwargs):
+            ex.bind_args(func, ([recv] if recv is not None else []) + list(args), kwargs)  # raises PyExc(TypeError)
+            return Unknown('BoundArguments')
+
+        self.bind = Builtin('bind', bind)
+
+
+def m_signature(ex, f, **kw):
+    if isinstance(f, Bound) and isinstance(f.func, Func):
+        return _Signature(f.func, f.recv)
+    if isinstance(f, Func):
+        return _Signature(f, None)
+    raise E.Unsupported(f'inspect.signature of {f!r}')
+
+
+_MC.NATIVE_MODELS[_inspect.signature] = m_signature
